@@ -442,6 +442,10 @@ def hand_families():
          struct_("Top", [("x", ref("G", P("i32"), P("string"))), ("y", ref("G", P("string"), P("i32"))), ("z", ref("G", ref("L"), opt(ref("L"))))])],
         ref("Top"), note="two-parameter generic, swapped instantiations")
     add([struct_("G", [("a", {"k": "param", "i": 0})], gparams=1)], ref("G", ref("G", P("i32"))), note="generic instantiated at itself, generic root")
+    add([struct_("Bag", [("items", vec({"k": "param", "i": 0})), ("first", opt({"k": "param", "i": 0})), ("by_name", mp({"k": "param", "i": 0}))], gparams=1),
+         struct_("Pt", [("x", P("i32"))]),
+         struct_("Top", [("a", ref("Bag", P("i32"))), ("b", ref("Bag", P("string"))), ("c", ref("Bag", ref("Pt"))), ("d", ref("Bag", P("i32")))])], ref("Top"),
+        note="generic record whose parameter only appears nested (Vec<T>, Option<T>, map of T), instantiated at three types")
     dur = {"k": "lt", "lt": "duration", "t": {"k": "bytearr", "n": 12}}
     add([struct_("Lease", [("holder", {"k": "param", "i": 0}), ("term", dur)], gparams=1),
          struct_("Top", [("a", ref("Lease", P("i32"))), ("b", ref("Lease", P("string"))), ("c", ref("Lease", P("i32"))), ("plain", dur)])], ref("Top"),
